@@ -670,6 +670,8 @@ def gen_c13(r, int_frac=0.0, strict_frac=0.0, maxlen=None):
             a = {"method": r.choice(C13_METHODS)}
             if r.random() < strict_frac:
                 a["strict"] = True
+            if strict_frac > 0 and r.random() < 0.35:
+                a["same_site"] = True  # issued from one and the same line of the user's program (a loop / helper)
             if r.random() < 0.1:
                 a["use_hessian"] = False
             if r.random() < 0.1:
